@@ -135,7 +135,8 @@ def token_edits(text, rng, per_rule):
         i = P.idx(toks[k].end)
         tail = rng.choice([" ", "x", "#c", " 1"])
         out.append(Site("line-continuation", text[:i] + " \\" + tail + text[i:], (bi(text, i) + 1, bi(text, i) + 3 + len(tail))))
-    nums = [t for t in toks if t.type == T.NUMBER]
+    # (a number written directly against a name / keyword is no site: the malformed text would glue to it and lex differently)
+    nums = [t for t in toks if t.type == T.NUMBER and not (text[P.idx(t.end):P.idx(t.end) + 1].isalnum() or text[P.idx(t.end):P.idx(t.end) + 1] == "_")]
     rng.shuffle(nums)
     for t in nums[:per_rule]:
         i, j = P.idx(t.start), P.idx(t.end)
